@@ -219,9 +219,39 @@ def shape_fmt(item, ob):
     ob.check(f'NInt formatting impl #{idx}: same trait for both representations', [], z3.BoolVal(len(traits) == 1), cls='C16/NInt fmt', sample=str(traits))
     ob.absorb_engine(E)
 
+def json_models(E, callee, args, argtys, callee0):
+    """serde_json::Value constructors as term recorders (serde_json itself is trusted): the observable is which JSON number an integer becomes"""
+    m = re.fullmatch(r'<(?:serde_json::)?Value as From<(i64|f64|Option<f64>)>>::from', callee)
+    if m:
+        E.used_stubs.add(f'serde_json Value::from({m.group(1)}) -> recorder'); return Adt('JsonValue', m.group(1), [args[0]])
+    return NotImplemented
+def shape_json_int(item, ob):
+    """json_encode of an integer: an integer JSON number with exactly that value whenever it fits 64 bits, for either representation; a float beyond"""
+    rep, = item
+    E = new_engine(MIR, [json_models]); f = find_fn(E, 'json_encode'); N = z3.Int('n')
+    def run():
+        if rep == 'Small': E.assume(in_i64(N))
+        return E.run_fn(f, [objint(N, rep)])
+    def replay(model):
+        n = mval(model, N)
+        if not (-(1 << 63) <= n < (1 << 63)): return None
+        src = fmt_int(n) if rep == 'Small' else fmt_big(n)
+        return {'program': f'json_encode({src})', 'expect': {'equals': f'OK "{n}"'}}
+    for pc, kd, res, lg in E.explore(run):
+        ob.paths += 1; name = f'json_encode(int {rep})'; pref = [[z3.And(N >= -40, N <= 40)], [z3.And(N >= -(1 << 70), N <= (1 << 70))]]
+        if kd == 'panic': ob.panic(name + ' panic-free', pc, res, replay=replay, cls='C16/json int/panic', prefer=pref); continue
+        if kd != 'ok': ob.missing(name, f'{kd}: {res}'); continue
+        v = res.fields[0] if res.variant == 'Ok' else None
+        if v is None or not (isinstance(v, Adt) and v.ty == 'JsonValue'): goal = z3.BoolVal(False)
+        elif v.variant == 'i64': goal = z3.And(in_i64(N), v.fields[0] == N)
+        else: goal = z3.Not(in_i64(N))
+        ob.check(name + ' is the integer itself when it fits 64 bits', pc, goal, replay=replay, cls='C16/json int/value', prefer=pref, sample='Value::from(i64 n) iff n fits i64, for either representation'); ob.witness(v.variant if v is not None else 'err')
+    ob.absorb_engine(E)
+
 def run_shape(item, ob):
     fam, payload = item
-    {'decimal': shape_decimal, 'rational': shape_rational, 'str_radix': shape_str_radix, 'int_radix': shape_int_radix, 'roundtrip': shape_roundtrip, 'fmt': shape_fmt}[fam](payload, ob)
+    {'decimal': shape_decimal, 'rational': shape_rational, 'str_radix': shape_str_radix, 'int_radix': shape_int_radix, 'roundtrip': shape_roundtrip, 'fmt': shape_fmt,
+     'json_int': shape_json_int}[fam](payload, ob)
 
 def main(tier, seed, t0):
     global MIR
@@ -249,11 +279,12 @@ def main(tier, seed, t0):
         for n in range(0, 4): items.append(('int_radix', (b, n)))
         items.append(('roundtrip', (b, 3)))
     for k in range(5): items.append(('fmt', k))
+    for rep in ('Small', 'Big'): items.append(('json_int', (rep,)))
     rnd.shuffle(items)
     merged, per = pmap(run_shape, items, tier)
     return finish(PROP, tier, seed, merged, t0, th=th,
         kernels=['decimal.rs: parse_decimal_exactly, parse_rational_exactly, apply_exp10', 'lib.rs closures: str_radix, int_radix', 'nint.rs: Display/LowerHex/UpperHex/Binary/Octal for NInt'],
         bounds={'decimal strings': f'sign in {{none,+,-}}, 0..{maxd} integer digits, optional point with 0..{maxd} fraction digits, optional exponent of 1-2 digits (exact) or 10 digits (panic-freedom only); digits symbolic',
                 'p/q': '1-2 digits each', 'radix': f'bases {bases}; n < base^3 in both representations and signs; digit strings of 0..3 printable ASCII chars'},
-        outside=['base64/gzip/serde_json/UTF-8 codecs (third-party crates)', 'digit generation of std/num formatters', 'float parsing/printing (std)', 'longer digit strings', 'chr/ord, json_* (one-line closures over std/serde)'],
+        outside=['base64/gzip/serde_json/UTF-8 codecs (third-party crates)', 'digit generation of std/num formatters', 'float parsing/printing (std)', 'longer digit strings', 'chr/ord, json_decode and the non-integer arms of json_encode'],
         assumptions=['num-bigint FromStr accepts [+-]digits (underscore separators are not generated by the harness)', 'ASCII input (byte offsets == char offsets)'])
